@@ -458,7 +458,8 @@ def run(ck):
         ck.floor('R4.4', 0, 1, 'bin fns generate_ui / generate_ui_file')
         return
     ck.analysed('bin::generate_ui_file')
-    writes = [c for c in H.calls_in(guf['body']) if H.is_call_to(c, 'with_output_file')]
+    import rules.c15 as c15
+    writes = c15.output_write_calls(B, guf)       # with_output_file, directly or through a helper of the bin crate
     ck.floor('R4.4', len(writes), 2, 'writes in generate_ui_file')
     syn = next((n for n in walk(guf['body']) if n.get('k') == 'If' and any(x.get('m') == 'has_syntax_error' for x in H.calls_in(n['c'])) and n['c'].get('k') != 'Unary'), None)
     ok = syn is not None and any(r.get('k') == 'Ret' and r.get('e', {}).get('k') == 'Call' and (r['e'].get('def') or '').endswith('Result::Err') for r in walk(syn['then']))
